@@ -32,6 +32,7 @@ type Processor[K comparable, T Queueable[K]] struct {
 	stopCh             chan struct{}
 	resetCh            chan struct{}
 	stopped            atomic.Bool
+	closedCh           chan struct{}
 }
 
 // NewProcessor returns a new Processor object.
@@ -43,6 +44,7 @@ func NewProcessor[K comparable, T Queueable[K]](executeFn func(r T)) *Processor[
 		processorRunningCh: make(chan struct{}, 1),
 		stopCh:             make(chan struct{}),
 		resetCh:            make(chan struct{}, 1),
+		closedCh:           make(chan struct{}),
 		clock:              kclock.RealClock{},
 	}
 }
@@ -98,9 +100,14 @@ func (p *Processor[K, T]) Close() error {
 		close(p.stopCh)
 		// Blocks until processor loop ends
 		p.processorRunningCh <- struct{}{}
+		close(p.closedCh)
 		return nil
 	}
 
+	// Another Close is in progress (or done): wait until it has stopped the
+	// processor, otherwise a loop could still start and run callbacks after
+	// we have returned
+	<-p.closedCh
 	return nil
 }
 
